@@ -32,7 +32,8 @@ func NewDevice(failAt int, partial bool) *Device { return &Device{FailAt: failAt
 
 func (d *Device) Write(p []byte) (int, error) {
 	d.Writes++
-	if d.FailAt >= 0 && len(d.Buf)+len(p) > d.FailAt {
+	if d.Failed || (d.FailAt >= 0 && len(d.Buf)+len(p) > d.FailAt) {
+		// persistent: once the device has failed, every later write fails too (also a smaller one that would fit)
 		n := 0
 		if d.Partial && !d.Failed {
 			n = d.FailAt - len(d.Buf)
